@@ -123,6 +123,17 @@ func Generated(b *board.Board, ms *move.Store) []int {
 	return res
 }
 
+// GeneratedNested: the same, with `fill` moves of deeper plies already on the store (a frame below the new one),
+// as in a search that is many plies deep. The store holds move.StoreSize moves in all.
+func GeneratedNested(b *board.Board, ms *move.Store, fill int) []int {
+	ms.Push()
+	defer ms.Pop()
+	for i := 0; i < fill; i++ {
+		ms.Alloc(move.Move(1))
+	}
+	return Generated(b, ms)
+}
+
 // Playable is the engine's notion of playable moves: generated moves that do
 // not leave the mover's king attacked, filtered exactly as search and perft do.
 func Playable(b *board.Board, ms *move.Store) []move.Move {
